@@ -33,13 +33,15 @@ def pl_case(draw):
         el_u = st.one_of(fl(-1.0, 1.0, dtype), st.sampled_from([0.0, 0.5, 0.5, 1.0]))
     spot = draw(nested((N, H, Tn), el_s))
     unit = draw(nested((N, H, Tn), el_u))
-    cost_kind = draw(st.sampled_from(["none", "zero", "dyadic", "decimal", "decimal"]))
+    cost_kind = draw(st.sampled_from(["none", "zero", "dyadic", "decimal", "decimal", "mixed-zero"]))
     if cost_kind == "none":
         cost = None
     elif cost_kind == "zero":
         cost = [0.0] * H
     elif cost_kind == "dyadic":
         cost = [draw(st.integers(0, 2 ** 15)) * 2.0 ** -16 for _ in range(H)]
+    elif cost_kind == "mixed-zero":  # some instruments are frictionless, others are not
+        cost = [draw(st.sampled_from([0.0, 0.0, 0.01, 0.05, 1e-3])) for _ in range(H)]
     else:
         cost = [draw(st.sampled_from([1e-4, 1e-3, 5e-4, 0.01, 0.1, 0.25, 0.003])) for _ in range(H)]
     payoff = draw(st.one_of(st.none(), nested((N,), real_elements(dtype))))
